@@ -58,6 +58,7 @@ SPEC = {
         "const char* and string_view bodies/attributes are one value class (string): the statement is about the value, not the variant index",
         "fields that were never supplied (severity, body, timestamp, event id) are not judged; a defaulted observed timestamp must lie within 2 s of the CreateLogRecord call (slack so that a clock step never decides)",
         "severity numbers outside the enum must survive; their text is not judged",
+        "an EventId constructed from a name with an embedded NUL is its C-string prefix (logs::EventId stores a NUL-terminated char array): full name or prefix accepted, counted as don't-care; SetEventId(id, view) must keep every byte (--param strict_eventid_nul=1 demands it for EventId too)",
         "explicit identity wins field by field: an explicit TraceId alone leaves span id and flags to the active span",
         "in the threaded run value buffers stay alive until the case was verified (ownership is decided by the sequential runs)"],
 }
